@@ -1,4 +1,5 @@
 import DendroModel.Gen.C03Guards
+import DendroModel.Model.C01
 import DendroModel.Theory.C03Heap
 import DendroModel.Theory.C03Leaves
 /-! C03 — property theorems about the definitions `drv_c03` runs (`Model/C03.lean`, `Model/C03Heap.lean`; the driver
@@ -45,14 +46,24 @@ Obligations (every `theorem` directly in `namespace DendroModel.C03` of this fil
 * `removeChild_error_refines` — where `step` answers `ValueError` the pointer-level `remove_child` (either flag) raises
   before touching a pointer.  `insertMove_refines` — `insert_child` of a node that already is a child.
   `reseedAt_collapse_refines` — `reseed_at(…, suppress_unifurcations=False)`: chain, then the guarded basal collapse.
+* `errState_wf`, `errState_unchanged`, `filterLeaves_error_state`, `historyE_wf`, `runE_eq_run` — the ERROR CLAUSE: the state
+  a raising operation leaves behind (`errState`, executed by the driver and compared with the real tree after every raise)
+  has no shared node; every operation but `filter_leaf_nodes` raises before its first write; `filter_leaf_nodes` leaves the
+  bare seed; histories continued from those states (`runE`) stay free of sharing.
+* `encodeStruct_is_C01`, `encodeStruct_rooted`, `encode_is_fresh`, `step_update_is_fresh` — CLAUSE (c), through C01's model of
+  `encode_bipartitions` (imported read-only): the restructuring `step` performs is the tree C01's `encode` encodes; the
+  encoding that call stores equals a fresh, non-restructuring encoding of the tree it leaves; and for 11 operations asked to
+  update bipartitions the returned state is the output of such a final call.
 * `repr_is_arborescence` — what `Repr h none t ∧ WF t` says on the pointers alone: clause (a) literally.
 * `gen_*` — tie (A): the decision kernels regenerated from the current source (`Gen/C03Guards.lean`) are what the model does.
 
 NOT proved here (the definitions exist, are executable and are compared with the code on every run, but carry no
 theorem): the pointer-level clean-up `suppress_unifurcations` (the post-order loop) and the leaf-target clean-up after the
 inversion chain — hence `reseedAt_refines_partial` stays partial (the basal-bifurcation part of the clean-up is
-`collapseBasal_repr`, the whole of `suppress_unifurcations=False` is `reseedAt_collapse_refines`); the error clause in general (no partially
-mutated state exists in the model; `remove_child` and `Edge.collapse` have their error refinements); clause (c) (masks are outside this model — decided by the oracle); `reroot_at_midpoint`
+`collapseBasal_repr`, the whole of `suppress_unifurcations=False` is `reseedAt_collapse_refines`); pointer-level refinement of the
+raising path of `filter_leaf_nodes` (its error state is modelled at tree level: `errState`; `remove_child` and `Edge.collapse`
+have their error refinements on the heap); clause (c) for `reroot_at_edge`, `to_outgroup_position`, `suppress_unifurcations`, `randomly_reorient` (the model has no stored
+encoding: `step_update_is_fresh` speaks of the tree the final encoding call leaves; the stored masks are judged by the oracle); `reroot_at_midpoint`
 (no model).
 Helper lemmas are in `DendroModel.C03.Aux` / `.AuxP` / `.AuxR` / `.AuxH` / `.HeapAux` / `.Leaves`. -/
 namespace DendroModel.C03.Aux
@@ -6762,6 +6773,282 @@ example : let t : T := .node 0 none none none [.node 1 none none none [.node 2 n
     ((Heap.reseedChain (Heap.ofTree none Heap.empty t) (t.size + 2) 1).bind (fun h => Heap.edgeCollapse h 2)).map
       (fun h => (h.ch 1, h.par 3, h.par 2, h.ch 0)) = some ([3, 4, 0], some 1, none, [5]) := by
   intro t; refine ⟨by decide, by decide⟩
+
+end DendroModel.C03
+
+
+/-! # the error clause -/
+
+namespace DendroModel.C03.Aux
+open DendroModel DendroModel.C03
+
+theorem filterLast_le (keepIds : List Nat) (recursive : Bool) : ∀ (f : Nat) (t : T) (i : Nat),
+    cnt i (filterLast keepIds recursive f t) ≤ cnt i t
+  | 0, t, i => by simp [filterLast]
+  | f + 1, t, i => by
+      simp only [filterLast]
+      split
+      · exact Nat.le_refl _
+      · split
+        · exact dropLeaves_le _ t i
+        · exact Nat.le_trans (filterLast_le keepIds recursive f _ i) (dropLeaves_le _ t i)
+
+/-- when the loop of `filter_leaf_nodes` raises, the tree it holds at that moment (`filterLast`) is the bare seed, and the
+filter rejects it -/
+theorem loop_err_last (keepIds : List Nat) (recursive : Bool) : ∀ (f : Nat) (t : T) (e : Err),
+    filterLeaves.loop recursive (fun c => keepIds.contains c.id) f t = .error e →
+    e = .seedDeletion ∧ (filterLast keepIds recursive f t).cs = [] ∧
+      keepIds.contains (filterLast keepIds recursive f t).id = false
+  | 0, t, e, h => by simp [filterLeaves.loop] at h
+  | f + 1, t, e, h => by
+      simp only [filterLeaves.loop] at h
+      simp only [filterLast]
+      split at h
+      · rename_i hemp
+        simp only [hemp, if_true]
+        split at h
+        · cases h
+        · rename_i hk
+          injection h with h
+          exact ⟨h.symm, by simpa using hemp, by simpa using hk⟩
+      · rename_i hemp
+        simp only [hemp, Bool.false_eq_true, if_false]
+        split at h
+        · cases h
+        · rename_i hc
+          simp only [hc, Bool.false_eq_true, if_false]
+          exact loop_err_last keepIds recursive f _ e h
+
+end DendroModel.C03.Aux
+
+namespace DendroModel.C03
+open DendroModel DendroModel.C03.Aux
+
+/-! ## the error clause: the state a raising operation leaves behind -/
+
+/-- **"… raises a documented error and leaves the tree well formed."**  Whatever operation raises, on whatever tree without
+shared nodes: the state it leaves behind (`errState`: the state as it was, or — `filter_leaf_nodes` — the tree its loop had
+reached) has no shared node. -/
+theorem errState_wf (s : St) (op : Op) (h : WF s.t) : WF (errState s op).t := by
+  cases op <;> first
+    | exact h
+    | exact wf_of_le h (fun i => filterLast_le _ _ _ s.t i)
+
+/-- every operation of the alphabet other than `filter_leaf_nodes` raises BEFORE ITS FIRST WRITE: the state it leaves is the
+state it found (for the two pointer primitives that can raise this is proved on the heap as well: `removeChild_error_refines`,
+`edgeCollapse_error_refines`; `prune_subtree` tests `node._parent_node is None` first) -/
+theorem errState_unchanged (s : St) (op : Op) (hop : ∀ k r u sp, op ≠ .filterLeaves k r u sp) : errState s op = s := by
+  cases op <;> first
+    | rfl
+    | exact absurd rfl (hop _ _ _ _)
+
+/-- … and `filter_leaf_nodes`, the one operation that raises mid-way: the exception is `SeedNodeDeletionException`, and the
+partially mutated tree it leaves is the bare seed (every other node was removed by the passes before), a leaf the filter
+rejects — a one-node arborescence -/
+theorem filterLeaves_error_state (s : St) (keep : List Nat) (r u sp : Bool) (e : Err)
+    (hs : step s (.filterLeaves keep r u sp) = .error e) :
+    e = .seedDeletion ∧ (errState s (.filterLeaves keep r u sp)).t.cs = [] ∧
+      keep.contains (errState s (.filterLeaves keep r u sp)).t.id = false ∧
+      (errState s (.filterLeaves keep r u sp)).rooted = s.rooted := by
+  simp only [step, filterLeaves] at hs
+  split at hs
+  · rename_i e' he
+    injection hs with hs; subst hs
+    have := loop_err_last keep r (s.t.size + 1) s.t e' he
+    exact ⟨this.1, this.2.1, this.2.2, rfl⟩
+  · cases hs
+
+/-- **Clause (a), tree level, every history — with the states raising operations really leave.**  `runE` continues a
+history after a raise from `errState` (not from "the state as it was"): the final tree has no shared node. -/
+theorem historyE_wf : ∀ (ops : List Op) (s : St), WF s.t → (∀ op ∈ ops, op.SubWF) → WF (runE ops s).t
+  | [], s, h, _ => h
+  | op :: ops, s, h, hall => by
+      simp only [runE]
+      have hop := hall op (by simp)
+      have hrest : ∀ o ∈ ops, o.SubWF := fun o ho => hall o (by simp [ho])
+      split
+      · rename_i s' hs
+        exact historyE_wf ops s' (step_wf s s' op h hop hs) hrest
+      · exact historyE_wf ops _ (errState_wf s op h) hrest
+
+/-- `run` and `runE` differ only through `filter_leaf_nodes` raising: on a history without that operation they agree -/
+theorem runE_eq_run : ∀ (ops : List Op) (s : St), (∀ op ∈ ops, ∀ k r u sp, op ≠ .filterLeaves k r u sp) → runE ops s = run ops s
+  | [], s, _ => rfl
+  | op :: ops, s, hall => by
+      have hrest : ∀ o ∈ ops, ∀ k r u sp, o ≠ .filterLeaves k r u sp := fun o ho => hall o (by simp [ho])
+      simp only [runE, run]
+      split
+      · exact runE_eq_run ops _ hrest
+      · rw [errState_unchanged s op (hall op (by simp))]; exact runE_eq_run ops s hrest
+
+/-- non-vacuity: a filter that rejects every node of ((A,B),(C,D)) empties the tree in three passes and then raises on the
+seed; the state left is the bare seed, and the history goes on from there (a new child can be hung under it) -/
+example : (match step { t := exTree, rooted := none } (.filterLeaves [] true false true) with
+      | .error .seedDeletion => true | _ => false) = true ∧
+    (errState { t := exTree, rooted := none } (.filterLeaves [] true false true)).t.size = 1 ∧
+    (runE [.filterLeaves [] true false true, .newChild 0 (some 5) none] { t := exTree, rooted := none }).t.size = 2 ∧
+    (run [.filterLeaves [] true false true, .newChild 0 (some 5) none] { t := exTree, rooted := none }).t.size = 8 := by
+  refine ⟨by decide, by decide, by decide, by decide⟩
+
+end DendroModel.C03
+
+
+/-! # clause (c) -/
+
+namespace DendroModel.C03.Aux
+open DendroModel DendroModel.C03
+
+theorem addLen_eq (a b : Option Frac) : C03.addLen a b = DendroModel.addLen a b := by
+  cases a <;> cases b <;> rfl
+
+mutual
+theorem sup_eq : ∀ t : T, C03.sup t = T.sup t
+  | .node i x l s cs => by
+      simp only [C03.sup, T.sup, supL_eq cs]
+      split <;> simp_all [addLen_eq]
+theorem supL_eq : ∀ cs : List T, C03.supL cs = T.supL cs
+  | [] => rfl
+  | c :: cs => by simp only [C03.supL, T.supL, sup_eq c, supL_eq cs]
+end
+
+theorem collapseBasal_eq (t : T) : (C03.collapseBasal t).getD t = T.collapseBasal t := by
+  cases t with
+  | node i x l s cs =>
+    match cs with
+    | [] => rfl
+    | [_] => rfl
+    | _ :: _ :: _ :: _ => rfl
+    | [a, b] =>
+      have hdef : C03.collapseBasal (T.node i x l s [a, b]) =
+          (if b.cs.length ≥ 2 then some (T.node i x l s (a.withLen (C03.addLen a.len b.len) :: b.cs))
+           else if a.cs.length ≥ 2 then some (T.node i x l s (a.cs ++ [b.withLen (C03.addLen b.len a.len)]))
+           else none) := rfl
+      have hdef2 : T.collapseBasal (T.node i x l s [a, b]) =
+          (if b.cs.length ≥ 2 then T.node i x l s (a.withLen (DendroModel.addLen a.len b.len) :: b.cs)
+           else if a.cs.length ≥ 2 then T.node i x l s (a.cs ++ [b.withLen (DendroModel.addLen b.len a.len)])
+           else T.node i x l s [a, b]) := rfl
+      rw [hdef, hdef2]
+      by_cases h1 : b.cs.length ≥ 2
+      · simp [h1, addLen_eq]
+      · by_cases h2 : a.cs.length ≥ 2 <;> simp [h1, h2, addLen_eq]
+
+end DendroModel.C03.Aux
+
+namespace DendroModel.C03
+open DendroModel DendroModel.C03.Aux
+
+/-! ## clause (c): what an operation asked to update bipartitions leaves is what a fresh encoding produces -/
+
+/-- the restructuring `step` performs for `encode_bipartitions` / `update_bipartitions` is, node for node, the tree C01's
+model of `encode_bipartitions` encodes (`C01.encodeTree`; C01's theorems are about the masks of that tree) -/
+theorem encodeStruct_is_C01 (a b : Bool) (s : St) : (encodeStruct a b s).t = C01.encodeTree s.rooted a b s.t := by
+  have hcb := collapseBasal_eq s.t
+  simp only [encodeStruct, C01.encodeTree, collapseBasalSt]
+  by_cases hg : (b && s.rooted != some true && s.t.cs.length == 2) = true
+  · simp only [hg, if_true]
+    cases hc : C03.collapseBasal s.t with
+    | none => rw [hc] at hcb; simp only [Option.getD] at hcb; rw [← hcb]; cases a <;> simp [sup_eq]
+    | some t' => rw [hc] at hcb; simp only [Option.getD] at hcb; rw [← hcb]; cases a <;> simp [sup_eq]
+  · simp only [hg]; cases a <;> simp [sup_eq]
+
+/-- the rooting state after the restructuring is "rooted" exactly when it was before (a collapse happens only on a tree
+that is not rooted, and marks it unrooted) -/
+theorem encodeStruct_rooted (a b : Bool) (s : St) : ((encodeStruct a b s).rooted == some true) = (s.rooted == some true) := by
+  simp only [encodeStruct, collapseBasalSt]
+  by_cases hg : (b && s.rooted != some true && s.t.cs.length == 2) = true
+  · have hr : (s.rooted == some true) = false := by
+      cases hsr : s.rooted with
+      | none => rfl
+      | some v => cases v <;> simp_all
+    simp only [hg, if_true]
+    cases C03.collapseBasal s.t <;> cases a <;> simp [hr]
+  · simp only [hg]; cases a <;> simp
+
+/-- **Clause (c).**  The list of `(leafset, split)` masks `encode_bipartitions(suppress, collapse)` computes and stores
+(C01's `encode`, on the state the call found) is exactly what a fresh encoding of the tree it leaves produces — a fresh
+encoding that restructures nothing (`False, False`), i.e. the masks of the tree as it stands, which is what the harness's
+from-scratch oracle compares the stored encoding with. -/
+theorem encode_is_fresh (a b : Bool) (s : St) :
+    C01.encode (encodeStruct a b s).rooted false false (encodeStruct a b s).t = C01.encode s.rooted a b s.t := by
+  have h1 := encodeStruct_is_C01 a b s
+  have h2 := encodeStruct_rooted a b s
+  simp only [C01.encode]
+  have e : C01.encodeTree (encodeStruct a b s).rooted false false (encodeStruct a b s).t = (encodeStruct a b s).t := by
+    simp [C01.encodeTree]
+  rw [e, h1, h2]
+
+/-- the operations of the alphabet that end with that call when asked to update bipartitions -/
+def Op.UpdatesBipartitions : Op → Prop
+  | .encode _ _ => True
+  | .reseedAt _ _ _ => True
+  | .rerootAtNode _ ub _ _ => ub = true
+  | .collapseUnweighted _ ub => ub = true
+  | .resolve _ ub => ub = true
+  | .resolveRng _ ub _ => ub = true
+  | .pruneSubtree _ ub _ => ub = true
+  | .filterLeaves _ _ ub _ => ub = true
+  | .pruneNoTaxa _ ub _ => ub = true
+  | .pruneTaxa _ ub _ => ub = true
+  | .retainTaxa _ ub _ => ub = true
+  | _ => False
+
+/-- … for every such operation, the state `step` returns IS the output of a final `encode_bipartitions(a, b)` on some state
+`s1` (the operation's own restructuring done): so the encoding that call stores, `C01.encode s1.rooted a b s1.t`, equals the
+fresh encoding of the returned tree (`encode_is_fresh`).  Not covered: `reroot_at_edge` (ends with the same call; not proved here), `to_outgroup_position`, `suppress_unifurcations`,
+`randomly_reorient`, whose `update_bipartitions` the model treats as structurally neutral (oracle only). -/
+theorem step_update_is_fresh (s s' : St) (op : Op) (hub : op.UpdatesBipartitions) (hs : step s op = .ok s') :
+    ∃ (s1 : St) (a b : Bool), s' = encodeStruct a b s1 ∧
+      C01.encode s'.rooted false false s'.t = C01.encode s1.rooted a b s1.t := by
+  have key : ∀ (s1 : St) (a b : Bool), s' = encodeStruct a b s1 →
+      ∃ (s1 : St) (a b : Bool), s' = encodeStruct a b s1 ∧
+        C01.encode s'.rooted false false s'.t = C01.encode s1.rooted a b s1.t :=
+    fun s1 a b e => ⟨s1, a, b, e, by rw [e]; exact encode_is_fresh a b s1⟩
+  cases op <;> simp only [Op.UpdatesBipartitions] at hub
+  case encode a b => simp only [step] at hs; injection hs with hs; exact key s a b hs.symm
+  case reseedAt target c sp =>
+    simp only [step] at hs; split at hs
+    · cases hs
+    · injection hs with hs; exact key _ sp c hs.symm
+  case rerootAtNode target ub sp c =>
+    subst hub
+    simp only [step] at hs; split at hs
+    · cases hs
+    · injection hs with hs; exact key _ sp c (by rw [← hs]; rfl)
+  case collapseUnweighted thr ub =>
+    subst hub; simp only [step] at hs; injection hs with hs; exact key _ true true (by rw [← hs]; rfl)
+  case resolve lim ub =>
+    subst hub; simp only [step] at hs; split at hs
+    · cases hs
+    · injection hs with hs; exact key _ true true (by rw [← hs]; rfl)
+  case resolveRng lim ub sc =>
+    subst hub; simp only [step] at hs; split at hs
+    · cases hs
+    · injection hs with hs; exact key _ true true (by rw [← hs]; rfl)
+  case pruneSubtree c ub sp =>
+    subst hub; simp only [step] at hs; split at hs
+    · cases hs
+    · simp only [pruneSubtree] at hs; split at hs
+      · cases hs
+      · injection hs with hs; exact key _ sp true (by rw [← hs]; rfl)
+  case filterLeaves keep r ub sp =>
+    subst hub; simp only [step, filterLeaves] at hs; split at hs
+    · cases hs
+    · injection hs with hs; exact key _ sp true (by rw [← hs]; rfl)
+  case pruneNoTaxa r ub sp =>
+    subst hub; simp only [step] at hs; injection hs with hs; exact key _ sp true (by rw [← hs]; rfl)
+  case pruneTaxa bits ub sp =>
+    subst hub; simp only [step] at hs; injection hs with hs
+    exact key _ sp true (by rw [← hs]; rfl)
+  case retainTaxa bits ub sp =>
+    subst hub; simp only [step] at hs; injection hs with hs
+    exact key _ sp true (by rw [← hs]; rfl)
+
+/-- non-vacuity: on the unrooted ((A,B),(C,D)), `resolve_polytomies(update_bipartitions=True)` ends with an encoding call that
+collapses the basal bifurcation; the leafset masks of the tree it leaves (A, B, C, D, {C,D}… as bit sets) are those of `C01.encode` -/
+example : (Op.resolve 2 true).UpdatesBipartitions ∧
+    ((step { t := exTree, rooted := some false } (.resolve 2 true)).toOption.map (fun s' => s'.t.cs.map T.id)) = some [1, 5, 6] ∧
+    (C01.encode (some false) true true exTree).map Prod.fst = [1, 2, 3, 4, 8, 15] := by
+  refine ⟨rfl, by decide, by decide⟩
 
 end DendroModel.C03
 
